@@ -985,9 +985,11 @@ func rpcServerRule(c *Ctx, rule string) {
 			isNil := atomEdges(fn, R, eqAtom(errP, "nil"))
 			isEOF := atomEdges(fn, R, eqAtom(errP, "io.EOF"))
 			ws := Query{Fn: fn,
-				IsSite:   func(in ssa.Instruction) bool { _, ok := in.(*ssa.Return); return ok },
-				Gen:      func(in ssa.Instruction) bool { return in == stErr[0] },
-				Kill:     func(in ssa.Instruction) bool { return in != stErr[0] && (containsInstr(stResp, in) || containsInstr(stEOF, in)) },
+				IsSite: func(in ssa.Instruction) bool { _, ok := in.(*ssa.Return); return ok },
+				Gen:    func(in ssa.Instruction) bool { return in == stErr[0] },
+				Kill: func(in ssa.Instruction) bool {
+					return in != stErr[0] && (containsInstr(stResp, in) || containsInstr(stEOF, in))
+				},
 				SkipEdge: orEdges(isNil, isEOF)}.Run()
 			if len(ws) == 0 {
 				c.OK(rule, FnName(fn)+" | an error is answered with TypeError", c.P.InstrPos(stErr[0]), "every exit with err != nil (not EOF) leaves Type = TypeError", true)
